@@ -3,7 +3,35 @@
 open Model
 open Util
 
-let run_case toks obs =
+(* msgpackzip (the dependency, not this package) mishandles integer map keys: a negative key comes back as its unsigned
+   byte or makes Decompress fail, a key of int64 max or above makes Compress fail.  Failures on inputs of that shape get their
+   own signature (a known finding); everything else keeps its signature. *)
+let intkey_shape (line : string) (data_hex : string) : bool =
+  let txt = line ^ " " ^ (if data_hex = "" || data_hex = "-" then "" else
+                          match decode (bytes_of_hex data_hex) with DOk (v, _) -> Values.print v | _ -> "") in
+  let neg = Str.regexp "[{,]i:-[0-9]+=" and big = Str.regexp "[{,]i:\\([0-9]+\\)=" in
+  (try ignore (Str.search_forward neg txt 0); true with Not_found -> false)
+  || (let rec scan pos =
+        match (try Some (Str.search_forward big txt pos) with Not_found -> None) with
+        | None -> false
+        | Some p ->
+            let d = Str.matched_group 1 txt in
+            if String.length d >= 19 && ZZ.geq (ZZ.of_string d) (ZZ.of_string "9223372036854775807") then true else scan (p + 1) in
+      scan 0)
+
+let rec run_case toks obs =
+  let v = run_case0 toks obs in
+  let k = parse_kv (match toks with _ :: _ :: rest -> rest | _ -> []) in
+  let fam = kv "family" k in
+  let ct2 = kv "ctype" k = "2" || (String.length fam >= 7 && String.sub fam (String.length fam - 7) 7 = "ctype-2") in
+  let is_pf = String.length v >= 8 && String.sub v 0 8 = "PROPFAIL" in
+  let has s sub = (try ignore (Str.search_forward (Str.regexp_string sub) s 0); true with Not_found -> false) in
+  if is_pf && ct2 && not (has v "sig=panic") && intkey_shape (String.concat " " toks) (kv "data" k) then
+    Printf.sprintf "PROPFAIL %s sig=msgpackzip-int-map-key msgpackzip (dependency) does not round-trip this value: it contains a map with a negative integer key or an integer key >= int64 max [%s]"
+      (List.nth toks 1) (String.sub v 0 (min 160 (String.length v)))
+  else v
+
+and run_case0 toks obs =
   match toks with
   | "scn" :: id :: rest ->
       let k = parse_kv rest in
